@@ -185,7 +185,15 @@ def run_check(prop, tier, seed, replay, no_build=False):
     t0 = time.time()
     os.chdir(VERIF)
     import logging
-    logging.disable(logging.CRITICAL)  # the code under test logs expected failures loudly
+    if os.environ.get("VERIF_LOG", "debug") == "off":
+        logging.disable(logging.CRITICAL)
+    else:
+        # The code under test runs the way a user asked for logs runs it: every pyatv logger
+        # enabled for DEBUG, so the `isEnabledFor`-guarded statements (log_binary,
+        # log_protobuf, ...) execute too.  Records go to a null handler: the code under test
+        # logs expected failures loudly and nothing of it is printed.
+        logging.getLogger().addHandler(logging.NullHandler())
+        logging.getLogger("pyatv").setLevel(logging.DEBUG)
     mod = harness_for(prop)
     props_files = list(getattr(mod, "PROPS_FILES", [f"PyatvModel/Props/{prop}.lean"]))
     props_modules = [p[:-5].replace("/", ".") for p in props_files]
